@@ -48,6 +48,8 @@ theorem putV_inv {c : Cloud} (h : Inv c) (k : Key) (v : Nat) (x : Val) : Inv (pu
     · exact ⟨fun lg h' => h.adv lg h'⟩
     · rename_i lg hl
       split
+      · exact h
+      split
       · rename_i hloc
         exact inv_log_insert h hl k (v, x) (fun r0 h0 => by rw [hloc] at h0; cases h0)
       · rename_i v0 x0 hloc
